@@ -41,6 +41,7 @@ WorldOK == phase = 2 =>
   IN /\ (Balanced(ts) \/ (PrintT(<<"MODELBAD", code, "balance">>) /\ FALSE))
      /\ (NoUnset(ts) \/ (PrintT(<<"MODELBAD", code, "unset">>) /\ FALSE))
      /\ ((v >= 0 /\ (HasN(w) => v > 0)) \/ (PrintT(<<"MODELBAD", code, "volume">>) /\ FALSE))
+     /\ ((Base = 2 => LocalOriented(w, ts)) \/ (PrintT(<<"MODELBAD", code, "localorient">>) /\ FALSE))
      /\ (VerticesOnSurface(w, ts) \/ (PrintT(<<"MODELBAD", code, "onsurface">>) /\ FALSE))
      /\ (Emit => PrintT(<<"VEC", code, Len(ts)>>))
 =============================================================================
